@@ -26,8 +26,9 @@ RECURSIVE EvalP(_, _, _)
 EvalP(b, v, s) == IF s[1] = "A" THEN v[s[2] + 1]
                   ELSE Tab(b, s[2], [j \in 1..Len(s[3]) |-> EvalP(b, v, s[3][j])])
 
+\* letters a, b, c (index 0..2); generated arguments use two, the systematic one-rule arguments three
 PropValid(b, arg) ==
-  \A v \in [1..2 -> ValsOf(b)] :
+  \A v \in [1..3 -> ValsOf(b)] :
      (\A j \in 1..Len(arg.prems) : EvalP(b, v, arg.prems[j]) \in DesOf(b)) => EvalP(b, v, arg.conc) \in DesOf(b)
 
 Cases == ndJsonDeserialize(IOEnv.CASES)
